@@ -248,6 +248,16 @@ def big_documents(thorough=False):
         out.append(("and-run-%d" % n, "Feature: f\n Background:\n  Given b\n" + "  And bb\n" * (n // 2) + " Scenario Outline: s\n  But first\n" + "  And <a>\n" * n + "  Examples:\n   | a |\n   | 1 |\n"))
         out.append(("conjunction-only-%d" % n, "Feature: f\n Scenario: s\n" + "  And y\n" * n))
         out.append(("blank-run-%d" % n, "Feature: f\n" + "\n" * n + " Scenario: s\n" + "# c\n" * n + "  Given x\n"))
+    # two dimensions at once: neither count is large, their product (pickle steps / cells / tags) is
+    for s, r in [(64, 65), (190, 180)] + ([(130, 127), (257, 256), (40, 1700)] if thorough else []):
+        out.append(("outline-%d-steps-x-%d-rows" % (s, r), "Feature: f\n Background:\n  Given b\n Scenario Outline: o <a>\n" + "".join("  %s step %d <a>\n" % (("Given", "And", "When", "Then", "But")[j % 5], j) for j in range(s)) +
+                    "  @e\n  Examples:\n   | a |\n" + "".join("   | %d |\n" % i for i in range(r)) + " Scenario: after\n  Given z\n"))
+    for r, c in [(66, 63), (260, 260)] + ([(129, 128), (520, 130)] if thorough else []):
+        rows = "".join("   |" + "".join(" %d.%d |" % (i, j) for j in range(c)) + "\n" for i in range(r))
+        out.append(("table-%d-rows-x-%d-cells" % (r, c), "Feature: f\n Scenario: s\n  Given t\n" + rows + "  And u\n   | x |\n Scenario Outline: o\n  Given <0.0>\n  Examples:\n" + rows))
+    for t, r in [(70, 60)] + ([(260, 255)] if thorough else []):
+        tags = " ".join("@t%d" % i for i in range(t))
+        out.append(("outline-%d-tags-x-%d-rows" % (t, r), tags + "\nFeature: f\n " + tags + "\n Scenario Outline: o\n  Given <a>\n  " + tags + "\n  Examples:\n   | a |\n" + "".join("   | %d |\n" % i for i in range(r))))
     for n in [65535, 65536, 65537, (1 << 20) - 1, 1 << 20, (1 << 20) + 1] + ([(1 << 21) + 3] if thorough else []):
         long = "x" * n
         out.append(("long-line-description-%d" % n, "Feature: f\n " + long + "\n Scenario: s\n  Given y\n"))
